@@ -47,6 +47,9 @@ DirPipelines ==
 CertPipelines ==
   { << Step("gen-certurl", {"pemchain", "ocsp"}, [kind |-> "certcbor"], [ncerts |-> nc, curve |-> c, sct |-> s]),
        Step("dump-certurl", {"certcbor"}, [kind |-> "text"], [x |-> 0]) >> : nc \in {1, 2}, c \in Curves, s \in BOOLEAN }
+  \cup   \* a leaf that already carries an embedded SCT list: what -sctDir supplies is written all the same
+  { << Step("gen-certurl", {"pemchain", "ocsp"}, [kind |-> "certcbor"], [ncerts |-> nc, curve |-> "p256-sctleaf", sct |-> s]),
+       Step("dump-certurl", {"certcbor"}, [kind |-> "text"], [x |-> 0]) >> : nc \in {1, 2}, s \in BOOLEAN }
 SxgPipelines ==
   { << Step("gen-certurl", {"pemchain", "ocsp"}, [kind |-> "certcbor"], [ncerts |-> nc, curve |-> c, sct |-> FALSE]),
        Step("gen-signedexchange", {"content", "pemchain", "eckey"}, [kind |-> "sxg", ver |-> v],
